@@ -74,8 +74,10 @@ def level_labels(case, side, op, pos):
     return [label(lt, k[pos]) for k in op["keys"]]
 
 
-def build(case, side):
-    """The pandas object of an operand (fresh on every call)."""
+def build(case, side, index=None):
+    """The pandas object of an operand (fresh on every call).  `index`: use this Index OBJECT instead of
+    building one (cases with "share_index": both operands are built from one Index object, as in
+    `pd.Series(factors, index=frame.index)`)."""
     op = case["obj" if side == "o" else "prm"]
     kind = op["kind"]
     if kind == "scalar":
@@ -86,18 +88,17 @@ def build(case, side):
     names = op["names"]
     n = len(op["keys"])
     arrays = [level_labels(case, side, op, p) for p in range(len(names))]
-    if len(names) == 1:
+    if index is not None:
+        idx = index
+    elif len(names) == 1:
         idx = pd.Index(arrays[0], name=names[0])
     else:
         idx = pd.MultiIndex.from_arrays(arrays, names=names)
     ncols = op["ncols"]
-    data = {f"{side}c{j}": [cell(side, i, j, ncols) for i in range(n)] for j in range(ncols)}
-    df = pd.DataFrame(data, index=idx)
     if kind == "series":
-        s = df.iloc[:, 0].copy()
-        s.name = f"{side}v"
-        return s
-    return df
+        return pd.Series([cell(side, i, 0, ncols) for i in range(n)], index=idx, name=f"{side}v")
+    data = {f"{side}c{j}": [cell(side, i, j, ncols) for i in range(n)] for j in range(ncols)}
+    return pd.DataFrame(data, index=idx)
 
 
 # ------------------------------------------------------------------ interpretation as relational tables
@@ -240,9 +241,21 @@ def decode_level(case, name, values, anon_side_pos=None):
 def decode_index(case, index):
     """list of frozenset((level, code)) in index order; None names resolved by their label range."""
     cols = []
+    positional = None
+    if case.get("share_index") and any(n is None for n in index.names):
+        # both operands carry the object's labels, so an unnamed result level cannot be told by its label
+        # range: resolve it by its position in `total_columns` (object's levels, then the parameter's own)
+        (on, _), prm = tables(case)
+        total = on + [n for n in prm[1] if n not in on]
+        if len(total) == index.nlevels and all((a is None) == b.startswith("?") and (a is None or a == b)
+                                               for a, b in zip(index.names, total)):
+            positional = total
     for p in range(index.nlevels):
         vals = index.get_level_values(p)
-        cols.append(decode_level(case, index.names[p], list(vals)))
+        if positional is not None and index.names[p] is None:
+            cols.append([(positional[p], int(v) % 1000) for v in vals])
+        else:
+            cols.append(decode_level(case, index.names[p], list(vals)))
     return [frozenset(c[i] for c in cols) for i in range(len(index))]
 
 
@@ -263,7 +276,8 @@ def run_impl(case):
     from pylife.core.broadcaster import Broadcaster
     r = Res()
     obj = build(case, "o")
-    prm = build(case, "p")
+    prm = build(case, "p", index=obj.index if case.get("share_index") else None)
+    r.shared = case.get("share_index") and obj.index is prm.index
     r.obj, r.prm = obj, prm
     r.obj0, r.prm0 = copy.deepcopy(obj), copy.deepcopy(prm)
     r.error = None
@@ -543,6 +557,28 @@ def gen_record_case(rng):
             "labels": {nm: rng.choice(LTYPES) for nm in names if nm is not None}}
 
 
+def gen_shared_index_case(rng, names=None, keys=None):
+    """Both operands built from ONE Index object (same level names, same keys), mostly with unnamed levels."""
+    if names is None:
+        nl = rng.randint(1, 3)
+        names = rng.sample(NAMES, nl)
+        for i in range(nl):
+            if rng.random() < 0.6:
+                names[i] = None
+    nl = len(names)
+    if keys is None:
+        n = rng.randint(1, 5)
+        keys = [list(k) for k in distinct_rows(rng, n, nl, 3 if nl > 1 else max(n, 2))]
+    okind = "frame" if names == [None] else rng.choice(["series", "frame"])   # ([None] Series = record path)
+    pkind = rng.choice(["series", "frame"])
+    return {"obj": {"kind": okind, "names": list(names), "keys": keys, "ncols": 1 if okind == "series" else rng.randint(1, 2)},
+            "prm": {"kind": pkind, "names": list(names), "keys": [list(k) for k in keys], "ncols": 1 if pkind == "series" else rng.randint(1, 2)},
+            "labels": {nm: rng.choice(LTYPES) for nm in names if nm is not None}, "share_index": True}
+
+
+SHARED_LAYOUTS = [[None], [None, None], [None, "z"], ["z", None], ["x"], ["x", "z"], [None, "z", None]]
+
+
 EXH_LAYOUTS = [
     (["x"], ["x"]), (["x"], ["y"]), (["x"], [None]), ([None], ["x"]),
     (["x", "z"], ["z"]), (["z"], ["x", "z"]), (["z"], ["z", "x"]),
@@ -645,6 +681,42 @@ def woehler_case(rng):
                                                      "record-series", "record-array", "record-scalar"]),
             "n_e": rng.randint(1, 5), "n_s": rng.randint(1, 5), "seed": rng.randrange(1 << 30),
             "k2": rng.choice(["none", "inf", "value"]), "shuffle": rng.random() < 0.5}
+
+
+COLLECTIVE_RAISE_VARIANTS = [
+    # (collective index, operand index): layouts with repeated labels on which pandas' join raises
+    (lambda: pd.Index([10, 10, 20], name="element_id"), lambda: pd.Index([1, 2], name="scenario")),
+    (lambda: pd.MultiIndex.from_tuples([(10, 0), (10, 1), (20, 1)], names=["element_id", "cycle"]),
+     lambda: pd.Index([10, 10, 20], name="element_id")),
+    (lambda: pd.Index([0, 0, 1]), lambda: pd.Index([1, 2], name="scenario")),
+    # and one that does not raise
+    (lambda: pd.Index([10, 20, 30], name="element_id"), lambda: pd.Index([1, 2], name="scenario")),
+]
+
+
+def collective_raise_oracle(case):
+    """scale / shift of a load collective whose alignment raises inside the Broadcaster (repeated index labels):
+    whatever the call does, the caller's collective and operand are what they were (deep copies before)."""
+    import pylife.stress.collective  # noqa: F401
+    ci, fi = COLLECTIVE_RAISE_VARIANTS[case["variant"]]
+    ci, fi = ci(), fi()
+    lc = pd.DataFrame({"from": np.arange(len(ci), dtype=float), "to": np.arange(len(ci), dtype=float) + 2.0}, index=ci)
+    f = pd.Series(np.arange(len(fi), dtype=float) + 2.0, index=fi)
+    lc0, f0 = copy.deepcopy(lc), copy.deepcopy(f)
+    raised = None
+    try:
+        with warnings.catch_warnings():
+            warnings.simplefilter("ignore")
+            getattr(lc.load_collective, case["op"])(f)
+    except Exception as e:
+        raised = type(e).__name__
+    for name, b, a in (("collective", lc0, lc), ("operand", f0, f)):
+        u = unchanged(b, a)
+        if u:
+            return (f"load_collective.{case['op']}: the caller's {name} was modified ({u}): index now {list(a.index)[:4]} "
+                    f"names {list(a.index.names)}" + (f"; the call raised {raised}" if raised else ""),
+                    "inputs-modified-after-raise" if raised else "inputs-modified")
+    return None
 
 
 class ScalarPathError(Exception):
@@ -800,6 +872,9 @@ def _woehler_oracle(case):
     return None
 
 
+CONSUMER_KINDS = ("woehler", "haigh", "collective-raise")
+
+
 # ------------------------------------------------------------------ the property module
 class C13(Prop):
     ID = "C13"
@@ -856,7 +931,8 @@ class C13(Prop):
     def __init__(self):
         self.stats = {"by_layout": {}, "by_kinds": {}, "sizes": {}, "errors": {}, "label_types": {}, "present": {"yes": 0, "no": 0},
                       "align_shortcut_triggers": 0, "unnamed_level_cases": 0, "equal_length_cases": 0, "consumer_cases": {},
-                      "outside_quantifier_cases": 0}
+                      "outside_quantifier_cases": 0, "shared_index_object_cases": 0,
+                      "raising_calls_checked_for_unchanged_operands": 0}
         self.exhaustive = False
         self._cache = {}
 
@@ -868,11 +944,22 @@ class C13(Prop):
                                           f"{len(EXH_LAYOUTS)} level-name layouts (overlapping ones restricted to 'every shared key present')")
         for c in exhaustive_cases(maxn):
             yield c
+        # both operands built from one shared Index object (unnamed levels are renamed by the Broadcaster)
+        for names in SHARED_LAYOUTS:
+            for keys in ordered_key_lists(len(names), 2, maxn):
+                yield {"obj": {"kind": "frame", "names": list(names), "keys": keys, "ncols": 1},
+                       "prm": {"kind": "series", "names": list(names), "keys": [list(k) for k in keys], "ncols": 1},
+                       "labels": {}, "share_index": True}
+        for v in range(len(COLLECTIVE_RAISE_VARIANTS)):
+            for op in ("scale", "shift"):
+                yield {"kind": "collective-raise", "variant": v, "op": op}
         nrand = 1300 if tier == "quick" else 16000
         for _ in range(nrand):
             u = rng.random()
-            if u < 0.72:
+            if u < 0.66:
                 yield gen_table_case(rng)
+            elif u < 0.72:
+                yield gen_shared_index_case(rng)
             elif u < 0.76:
                 c = gen_table_case(rng, lay="overlapping", present=False)
                 if not shared_keys_present(c):
@@ -889,7 +976,7 @@ class C13(Prop):
 
     # -------------------------------------------------------------- correspondence
     def model_lines(self, case):
-        if case.get("kind") in ("woehler", "haigh"):
+        if case.get("kind") in CONSUMER_KINDS:
             return []
         t = spec_tokens(case)
         return ["bc_obj " + t, "bc_prm " + t, "bc_names " + t]
@@ -905,7 +992,7 @@ class C13(Prop):
         return r
 
     def impl_lines(self, case):
-        if case.get("kind") in ("woehler", "haigh"):
+        if case.get("kind") in CONSUMER_KINDS:
             return []
         self._count(case)
         r = self._run(case)
@@ -941,7 +1028,7 @@ class C13(Prop):
             s["outside_quantifier_cases"] += 1
 
     def nontrivial(self, case, model_out):
-        if case.get("kind") in ("woehler", "haigh") or not model_out or model_out[0].startswith("error"):
+        if case.get("kind") in CONSUMER_KINDS or not model_out or model_out[0].startswith("error"):
             return None
         if layout(case) in ("equal", "scalar"):
             return None
@@ -956,9 +1043,23 @@ class C13(Prop):
         if case.get("kind") == "haigh":
             self.stats["consumer_cases"]["haigh"] = self.stats["consumer_cases"].get("haigh", 0) + 1
             return haigh_oracle(case)
-        if case.get("outside"):
-            return None
+        if case.get("kind") == "collective-raise":
+            self.stats["consumer_cases"]["collective-raise"] = self.stats["consumer_cases"].get("collective-raise", 0) + 1
+            return collective_raise_oracle(case)
+        res = self._oracle_table(case)
+        if res is not None and case.get("share_index") and not res[1].startswith("inputs-modified"):
+            distinct = {k: v for k, v in case.items() if k != "share_index"}
+            if self._oracle_table(distinct) is None:
+                return ("the result depends on the IDENTITY of the operands' Index object (the same operands with equal but "
+                        "distinct Index objects are aligned correctly): " + res[0], "shared-index-identity")
+        return res
+
+    def _oracle_table(self, case):
         r = self._run(case)
+        if r.error:
+            self.stats["raising_calls_checked_for_unchanged_operands"] += 1
+        if case.get("share_index"):
+            self.stats["shared_index_object_cases"] += 1 if r.shared else 0
         ref = ref_broadcast(case)
         shortcut = align_shortcut(case)
         klass_mis = "align-equal-values" if shortcut else "misaligned"
@@ -966,12 +1067,11 @@ class C13(Prop):
         for name, b, a in (("object", r.obj0, r.obj), ("parameter", r.prm0, r.prm)):
             u = unchanged(b, a)
             if u:
-                klass = "inputs-modified"
-                if r.error and contained_multi_missing(case):
-                    klass = "contained-multi-shared-missing-key"
-                elif r.error and shortcut:
-                    klass = "align-equal-values"
-                return (f"the {name} was modified by broadcast ({u})" + (f"; the call raised {r.error}" if r.error else ""), klass)
+                return (f"the {name} was modified by broadcast ({u}): index now {list(a.index)[:4]} names {list(a.index.names)}"
+                        + (f"; the call raised {r.error}" if r.error else ""),
+                        "inputs-modified-after-raise" if r.error else "inputs-modified")
+        if case.get("outside"):     # outside the quantifier: raising is fine, the operands above must still be untouched
+            return None
         if isinstance(ref, tuple):     # the documented ValueError for arrays of a wrong length
             if r.error == ref[1]:
                 return None
@@ -1017,7 +1117,7 @@ class C13(Prop):
 
     # -------------------------------------------------------------- shrinking
     def shrink(self, case, still_fails):
-        if case.get("kind") in ("woehler", "haigh"):
+        if case.get("kind") in CONSUMER_KINDS:
             cur = dict(case)
             for k in [k for k in ("n_e", "n_s") if k in case]:
                 while cur[k] > 1:
@@ -1039,6 +1139,8 @@ class C13(Prop):
                             break
                         cand = copy.deepcopy(cur)
                         del cand[side]["keys"][i]
+                        if cur.get("share_index"):      # one Index object: both operands lose the row
+                            del cand["prm" if side == "obj" else "obj"]["keys"][i]
                         if still_fails(cand):
                             cur, changed = cand, True
                             break
